@@ -1107,12 +1107,80 @@ def rule_wagner(repo: Repo, rep: Report) -> int:
 # RM-SOFT
 # ---------------------------------------------------------------------------
 
+def rm_forward_evaluated(repo: Repo):
+    """ReedMullerDecoder.forward in soft mode (class helpers and the block-wise utility followed) evaluated with own
+    arithmetic on real words, with index partitions chosen by the checker (pairs, singletons, a group with an index beyond
+    the word, more partitions than message bits): message bit j must be 1 iff the reliability-weighted vote
+    sum over the groups of (1 - 2 * parity of the group's hard decisions) * (minimum |value| in the group) is negative,
+    a hard decision being 1 iff the soft value is negative.  Returns (status, detail) or (None, reason)."""
+    from ..constfold import PySeq, Unfoldable
+    from ..frag import FragRaise, FragReturn, run_fragment
+
+    ci = repo.cls(RM, "ReedMullerDecoder")
+    fwd = repo.method(ci, "forward")
+    funcs = {f"self.{nm}": m.node for nm, m in ci.methods.items() if nm not in ("forward", "__init__")}
+    for mi_ in repo.modules.values():
+        if mi_.relpath == "kaira/models/fec/utils.py":
+            funcs.update({nm: f.node for nm, f in mi_.functions.items()})
+    n_, k_ = 8, 4
+    parts = [[[0, 1], [2, 3], [4, 5], [6, 7]], [[0, 2], [1, 3], [4, 6], [5, 7]], [[0, 4, 9], [1, 5], [2, 6], [3, 7], [8, 9]], [[0], [1], [2], [3], [4], [5], [6], [7]], [[0, 7]]]
+    words = [[0.9, -1.1, 0.8, -1.2, 1.0, -0.7, 1.3, -0.2], [2.0, 1.5, -0.3, 0.4, 0.1, -0.2, 0.9, 1.1], [-0.5, -0.6, -0.7, -0.8, 0.05, 0.9, -1.0, 1.1], [3.0, -0.1, -0.1, 2.0, -2.5, 0.2, 0.3, -0.4], [-1.0, -1.0, 1.0, 1.0, -1.0, 1.0, 1.0, -3.0]]
+
+    def ref(r):
+        out = []
+        for j, partition in enumerate(parts):
+            if j >= k_:
+                break
+            tot, any_ = 0.0, False
+            for group in partition:
+                idx = [g_ for g_ in group if g_ < len(r)]
+                if not idx:
+                    continue
+                any_ = True
+                par = sum(1 for g_ in idx if r[g_] < 0) % 2
+                tot += (1 - 2 * par) * min(abs(r[g_]) for g_ in idx)
+            out.append(1 if (any_ and tot < 0) else 0)
+        return out
+
+    attrs = {"self.code_length": n_, "self.code_dimension": k_, "self.input_type": "soft", "self._reed_partitions": PySeq([PySeq([list(g_) for g_ in p_]) for p_ in parts])}
+    for what, rec in (("a batch of five words", words), ("a single word", words[3]), ("two words side by side in one row", [words[0] + words[2]])):
+        try:
+            run_fragment(fwd.body, {"received": rec, "args": PySeq([]), "kwargs": {}}, dict(attrs), funcs=funcs, materialise=True, max_steps=6000000, attrs_live=True)
+            return None, "no value returned"
+        except FragReturn as ret:
+            got = ret.value
+        except (Unfoldable, FragRaise, TypeError, IndexError, ValueError, KeyError) as exc:
+            return None, f"{what}: {exc}"
+        if what.startswith("a batch"):
+            want = [ref(r) for r in words]
+        elif what.startswith("a single"):
+            want = ref(words[3])
+        else:
+            want = [ref(words[0]) + ref(words[2])]
+
+        def num(z):
+            return [num(t) for t in z] if isinstance(z, list) else int(z)
+
+        try:
+            g_ = num(got)
+        except (TypeError, ValueError):
+            return None, "the result is not numeric"
+        if g_ != want:
+            return VIOLATION, f"soft Reed decoding of {what}: the message bits come out as {str(g_)[:120]}; the reliability-weighted majority votes (group parity of the hard decisions, weight = minimum reliability of the group, bit 1 iff the vote is negative) give {str(want)[:120]}"
+    return OK, "5 real words (batch, single word, two blocks in one row) against the reliability-weighted majority vote per partition: group parity of the hard decisions (1 iff negative), weight = minimum reliability of the group, bit 1 iff the vote is negative; indices beyond the word and surplus partitions are ignored"
+
+
 def rule_rm(repo: Repo, rep: Report) -> int:
     ci = repo.cls(RM, "ReedMullerDecoder")
     fwd = repo.method(ci, "forward")
+    rst_, rd_ = rm_forward_evaluated(repo)
+    if rst_ is not None:
+        rep.add("RM-SOFT", fwd, "forward (soft input) evaluated on real words with checker-chosen partitions", rst_, rd_, node=fwd.node)
+        return 6
     db = fwd.nested("decode_block")
     if db is None:
-        raise AnalysisError("decode_block closure vanished in ReedMullerDecoder.forward")
+        rep.undecided("RM-SOFT", fwd, "decode_block", "closure not found and forward not evaluable")
+        return 0
     set_parents(db.node)
     soft = None
     for nd in ast.walk(db.node):
